@@ -697,3 +697,121 @@ func FuzzC17Stream(f *testing.F) {
 		}
 	})
 }
+
+// ---------------------------------------------------------------------------
+// HTTP client under transport faults: a message is delivered once, and a call
+// whose reply never arrived intact does not look like a success.
+
+type CountingEcho struct {
+	mu   sync.Mutex
+	seen map[string]int
+}
+
+func (c *CountingEcho) Echo(token string) (string, error) {
+	c.mu.Lock()
+	c.seen[token]++
+	c.mu.Unlock()
+	return token, nil
+}
+
+func TestC17HTTPFaults(t *testing.T) {
+	rec := vt.For("C17")
+	rec.Rule("HTTP client under faults: jsonrpc2.HTTPService.Call against the real jsonrpc2.HTTPServer behind a scripted front that, per call, passes the exchange through, or dispatches the request and then drops the connection before any reply byte, or answers 200 with an empty body / 204 / a truncated reply / a non-JSON body, or drops the connection before dispatching; oracle: every message is dispatched at most once (exactly once when the front dispatched it), a call returns nil only when an intact reply was delivered and then with its own token, and returns an error for every faulted exchange; non-trivial = a faulted exchange; distinct by the fault sequence")
+	echo := &CountingEcho{seen: map[string]int{}}
+	inner := &jsonrpc2.HTTPServer{}
+	if err := inner.Server.Register("t_", echo); err != nil {
+		t.Fatal(err)
+	}
+	var mu sync.Mutex
+	mode := "pass"
+	front := http.HandlerFunc(func(w http.ResponseWriter, r *http.Request) {
+		mu.Lock()
+		m := mode
+		mu.Unlock()
+		hijackClose := func() {
+			if hj, ok := w.(http.Hijacker); ok {
+				if c, _, err := hj.Hijack(); err == nil {
+					c.Close()
+				}
+			}
+		}
+		switch m {
+		case "pass":
+			inner.ServeHTTP(w, r)
+		case "lostReply":
+			rr := httptest.NewRecorder()
+			inner.ServeHTTP(rr, r) // dispatched ...
+			hijackClose()          // ... but the reply never leaves
+		case "dropBefore":
+			hijackClose()
+		case "empty200":
+			rr := httptest.NewRecorder()
+			inner.ServeHTTP(rr, r)
+			w.WriteHeader(200)
+		case "status204":
+			rr := httptest.NewRecorder()
+			inner.ServeHTTP(rr, r)
+			w.WriteHeader(204)
+		case "truncated":
+			rr := httptest.NewRecorder()
+			inner.ServeHTTP(rr, r)
+			b := rr.Body.Bytes()
+			w.Header().Set("content-type", "application/json")
+			w.Write(b[:len(b)/2])
+		case "html":
+			rr := httptest.NewRecorder()
+			inner.ServeHTTP(rr, r)
+			w.Header().Set("content-type", "text/html")
+			w.Write([]byte("<html><body>502 Bad Gateway</body></html>"))
+		}
+	})
+	ts := httptest.NewServer(front)
+	defer ts.Close()
+	tokenN := 0
+	rapid.Check(t, func(rt *rapid.T) {
+		hs := &jsonrpc2.HTTPService{Endpoint: ts.URL}
+		n := rapid.IntRange(1, 8).Draw(rt, "calls")
+		var seq []string
+		faulted := false
+		for i := 0; i < n; i++ {
+			m := rapid.SampledFrom([]string{"pass", "pass", "lostReply", "lostReply", "dropBefore", "empty200", "status204", "truncated", "html"}).Draw(rt, "exchange")
+			mu.Lock()
+			mode = m
+			mu.Unlock()
+			tokenN++
+			token := fmt.Sprintf("tok-%d-%s", tokenN, strings.Repeat("x", rapid.SampledFrom([]int{0, 10, 5000}).Draw(rt, "pad")))
+			ctx, cancel := context.WithTimeout(context.Background(), 20*time.Second)
+			var out string
+			err := hs.Call(ctx, &out, "t_echo", token)
+			cancel()
+			echo.mu.Lock()
+			delivered := echo.seen[token]
+			echo.mu.Unlock()
+			seq = append(seq, m)
+			desc := fmt.Sprintf("exchange %d of %v (%s): Call returned err=%v result=%.40q, the message was dispatched %d times", i+1, seq, m, err, out, delivered)
+			wantDelivered := 1
+			if m == "dropBefore" {
+				wantDelivered = 0
+			}
+			if delivered > 1 {
+				rt.Fatalf("a message was delivered more than once: %s", desc)
+			}
+			if delivered != wantDelivered {
+				rt.Fatalf("the front dispatched the message %d times, the service saw it %d times: %s", wantDelivered, delivered, desc)
+			}
+			if m == "pass" {
+				if err != nil || out != token {
+					rt.Fatalf("intact exchange failed or returned another call's result: %s", desc)
+				}
+			} else {
+				faulted = true
+				if err == nil {
+					rt.Fatalf("the reply never arrived intact, but the call reports success: %s", desc)
+				}
+			}
+		}
+		rec.Case(fmt.Sprintf("httpfaults|%v", seq), faulted, []string{"http-faults"}, func() interface{} {
+			return map[string]interface{}{"codec": "HTTP client under faults", "exchanges": seq}
+		})
+	})
+}
